@@ -31,7 +31,9 @@ TEXTS = {"t1": "CREATE TABLE \"t1\" (a int, b varchar(3) DEFAULT 'x');\n",
          "t2": "-- café Ж\nCREATE TABLE s.t2 (c int);\nCREATE SEQUENCE s.q START 1;\n",
          "t3": "CREATE TABLE h (x int) STORED AS PARQUET;\n",
          "t4": "CREATE TABLE a (x int);\nCREATE TABLE b (y int);\nALTER TABLE a ADD UNIQUE (x);\n",
-         "t5": ""}
+         "t5": "",
+         # collected (trailing / inline) comments: what one file leaves behind must not show up in the next file's result
+         "t6": "CREATE TABLE c (x int); -- note one\nCREATE TABLE d (y int /* in */, z int);\n"}
 ENC = ["utf-8", "utf-16", "latin-1", "cp1251"]
 NAMES = ["a.sql", "b.c.sql", "noext", "UP.SQL", "with space.sql", ".hidden.sql", "d.ddl", "e.hql", "f.bql", "g.txt"]
 TSTATES = ["missing", "nested", "empty", "stale"]
@@ -64,6 +66,12 @@ def gen_cases(tier):
     for a, b in itertools.product(["a.sql", "b.c.sql", "a.ddl"], repeat=2):
         for tk1, tk2 in (("t1", "t4"), ("t4", "t1")):
             cases.append({"kind": "seq", "names": [a, b], "texts": [tk1, tk2]})
+    # every ordered pair (thorough: triple) of texts through parse_from_file in one process, with equal or different settings, and
+    # with the target directory removed between two dumps
+    for tks in itertools.product(list(TEXTS), repeat=3 if tier == "thorough" else 2):
+        for si in ((0, 0), (0, 1), (3, 3)):
+            for rm in (False, True):
+                cases.append({"kind": "seq", "names": ["f%d.sql" % i for i in range(len(tks))], "texts": list(tks), "settings": list(si), "rm_target": rm})
     return cases
 
 
@@ -239,12 +247,22 @@ def seq_case(case):
             src = os.path.join(d, "in%d" % i)
             os.makedirs(src)
             fp = os.path.join(src, name)
-            open(fp, "w").write(TEXTS[tk])
-            exp = norm(DDLParser(TEXTS[tk]).run())
-            r = norm(parse_from_file(fp, dump=True, dump_path=tgt))
+            open(fp, "w", encoding="utf-8").write(TEXTS[tk])
+            sis = case.get("settings") or [0, 0]
+            settings, runkw = SETTINGS[sis[i % len(sis)]]
+            if case.get("rm_target") and i > 0:
+                shutil.rmtree(tgt, ignore_errors=True)
+                model = {}
+            exp = norm(DDLParser(TEXTS[tk], **settings).run(**runkw))
+            exp_file = norm(DDLParser(TEXTS[tk], **settings).run(**{k: v for k, v in runkw.items() if k != "json_dump"}))
+            try:
+                r = norm(parse_from_file(fp, encoding="utf-8", parser_settings=dict(settings), dump=True, dump_path=tgt, **runkw))
+            except Exception as e:  # noqa
+                D.append(diff("invocation %d" % i, "raises:" + type(e).__name__, "result", str(e)[:120]))
+                break
             if r != exp:
                 D.append(diff("invocation %d return value" % i, "differs-from-in-memory-api", short(exp, 200), short(r, 200)))
-            model[name.split(".")[0] + "_schema.json"] = exp
+            model[name.split(".")[0] + "_schema.json"] = exp_file
             files = tree(tgt)
             got = {}
             for f, b in files.items():
